@@ -128,6 +128,39 @@ Theorem C12_update_commit_never_panic : forall t sa sv ops d,
 Proof. exact update_commit_never_panic. Qed.
 Print Assumptions C12_update_commit_never_panic.
 
+(** AccountState handles (state/account.go) are copies written back only by PutState: Add/
+    SubBalance through a handle whose newState no buffered entry holds changes no buffer,
+    cache, storage, trie or store, hence no read and no root; the newState of a fresh handle is
+    such an object.  ([run_ok] requires exactly this of mutations inside a reverted span, so
+    C12_block_revert_restores covers handles taken, mutated and put after the snapshot.) *)
+Theorem C12_handle_mutation_invisible : forall d h ah o d',
+  (exists v, o = OAAdd h v \/ o = OASub h v) ->
+  nth_error (d_ah d) h = Some ah -> ptr_unused d (ah_ptr ah) -> step d o = Ok d' ->
+  d_buf d' = d_buf d /\ d_cache d' = d_cache d /\ d_heap d' = d_heap d /\ d_handles d' = d_handles d /\
+  d_trie d' = d_trie d /\ d_store_a d' = d_store_a d /\ d_store_v d' = d_store_v d /\
+  (forall a, get_state d' a = get_state d a).
+Proof. exact handle_mutation_invisible. Qed.
+Print Assumptions C12_handle_mutation_invisible.
+
+Theorem C12_fresh_handle_unused : forall d a d',
+  (forall e, In e (entries (d_buf d)) -> a_ptr (snd e) < d_nptr d) -> step d (OAGet a) = Ok d' ->
+  exists ah, nth_error (d_ah d') (length (d_ah d)) = Some ah /\ ptr_unused d' (ah_ptr ah) /\ d_buf d' = d_buf d.
+Proof. exact fresh_handle_unused. Qed.
+Print Assumptions C12_fresh_handle_unused.
+
+(** After PutState the handle aliases the buffered entry: a later Add/SubBalance is visible
+    without PutState and is not undone by a revert (known finding C12:mutate-after-put). *)
+Theorem C12_mutate_after_put_not_reverted :
+  match run (sdb_new [] [] []) [OAGet 1; OAAdd 0 5; OAPut 0; OSnap]%N with
+  | Ok d0 => match run d0 [OAAdd 0 3; ORollback 0]%N with
+             | Ok d1 => get_state d0 1%N = Ok (Some (5%N, [])) /\ get_state d1 1%N = Ok (Some (8%N, []))
+             | Panic => False
+             end
+  | Panic => False
+  end.
+Proof. exact mutate_after_put_not_reverted. Qed.
+Print Assumptions C12_mutate_after_put_not_reverted.
+
 (** The unrestricted statement is false of the code: an Update between the snapshot and the
     revert leaves the reverted write in the account trie (known finding C12:update-then-rollback). *)
 Theorem C12_revert_restores_with_update_refuted :
